@@ -121,7 +121,8 @@ def increfApply (U : Univ) (s : State) (c b : Nat) : State × List Nat :=
      limiters := if b ∈ s.refcnt then s.limiters else (addLimiter U s b).1.limiters
      revb := s.revb ++ [(c, b)]
      refcnt := s.refcnt ++ [b] },
-   if b ∈ s.refcnt then [] else (addLimiter U s b).2)
+   -- an already active blocker reports its current matches too (fix 0a3cc5d: packages can have been forced in past it)
+   if b ∈ s.refcnt then findMatches U s b else (addLimiter U s b).2)
 
 /-- `incref_forward_block_op.revert` -/
 def increfRevert (s : State) (c b : Nat) : Option State :=
